@@ -64,7 +64,8 @@ class Skel:
         fvp = self.fvp
         cfg = f.cfg
         facts = set()
-        switches = [b for b in sorted(cfg.reach) if f.term(b)["k"] == "switch"]
+        # real branches only: a switch on a literal (debug_assert!, cfg!) has a single live successor
+        switches = [b for b in sorted(cfg.reach) if f.term(b)["k"] == "switch" and len(cfg.succ[b]) > 1]
         # blocks owned by an edge: dominated by the edge target (when the target has a single predecessor),
         # minus blocks dominated by the targets of nested switches
         def region(target, src):
@@ -76,7 +77,7 @@ class Skel:
         def direct_effects(reg):
             nested = set()
             for b in reg:
-                if f.term(b)["k"] == "switch":
+                if f.term(b)["k"] == "switch" and len(cfg.succ[b]) > 1:
                     for s in cfg.succ[b]:
                         if len([p for p in cfg.pred[s] if p in cfg.reach]) == 1:
                             nested |= {x for x in reg if cfg.dominates(s, x)}
